@@ -54,6 +54,11 @@ type c03Case struct {
 	CfgB        repCfg              `json:"cfg_b"`
 	ProfileText string              `json:"profile_text"`
 	DataText    string              `json:"data_text"`
+	// Before, when set, is another profile validated in the same process just before: other name, every validation
+	// moved to the next level, and - through a trailing comment on both texts - the same length and the same 32-bit
+	// checksum (Checksum) as the subject. A cache keyed by such a fingerprint would answer with the wrong profile.
+	Before   string `json:"before,omitempty"`
+	Checksum string `json:"checksum,omitempty"`
 }
 
 func genC03(t *rapid.T) c03Case {
@@ -115,6 +120,21 @@ func genC03(t *rapid.T) c03Case {
 	c.CfgB = genRepCfg(t, "b")
 	c.ProfileText = c.Profile.ToY().Print(m.YOpts{})
 	c.DataText = c.Graph.JSONLD(m.LDOpts{})
+	if len(c.Profile.Validations) > 0 && rapid.IntRange(0, 5).Draw(t, "collidingPredecessor") == 0 {
+		next := map[string]string{"violation": "warning", "warning": "info", "info": "violation", "": ""}
+		prev := c.Profile
+		prev.Name = "previously validated"
+		prev.Validations = nil
+		for _, v := range c.Profile.Validations {
+			v.Level = next[v.Level]
+			prev.Validations = append(prev.Validations, v)
+		}
+		prev.ListOrder, prev.Undefined, prev.EmptyLevels = nil, nil, nil
+		sum := pick(t, m.Checksums, "checksum")
+		if a, b, ok := m.Collide(prev.ToY().Print(m.YOpts{}), c.ProfileText, sum, "# "); ok {
+			c.Before, c.ProfileText, c.Checksum = a, b, sum
+		}
+	}
 	return c
 }
 
@@ -151,6 +171,14 @@ func stripConfigured(report string) (string, error) {
 func decideC03(c c03Case) ev.Verdict {
 	if err := m.YAMLMatches(c.ProfileText, c.Profile.ToY()); err != nil {
 		return ev.Verdict{Discard: true, Detail: err.Error()}
+	}
+	if c.Before != "" {
+		if len(c.Before) != len(c.ProfileText) || m.Checksum(c.Checksum, c.Before) != m.Checksum(c.Checksum, c.ProfileText) {
+			return ev.Verdict{Discard: true, Detail: "the predecessor does not collide with the subject"}
+		}
+		if r := validateCfg(c.Before, c.DataText, c.CfgA); r.failed() {
+			return ev.Violation("c03-call-failed:"+classifyErr(r), "validation of the predecessor failed: %s\n%s", trunc(r.errString(), 400), c.Before)
+		}
 	}
 	ra := validateCfg(c.ProfileText, c.DataText, c.CfgA)
 	rb := validateCfg(c.ProfileText, c.DataText, c.CfgB)
@@ -256,6 +284,9 @@ func decideC03(c c03Case) ev.Verdict {
 	}
 	if len(want) == 0 {
 		v.Labels = append(v.Labels, "no-results")
+	}
+	if c.Before != "" {
+		v.Labels = append(v.Labels, "after-a-profile-with-the-same-length-and-"+c.Checksum)
 	}
 	if len(c.Profile.Undefined) > 0 {
 		v.Labels = append(v.Labels, "undefined-name-listed")
